@@ -344,7 +344,7 @@ pub fn script(kind_arg: &str, seed: u64, count: usize) -> Vec<J> {
                 };
                 let mut a = json!({});
                 if matches!(op, "concat" | "array_intersection" | "array_except") { a["pre"] = pre_of(&mut g); }
-                json!({"op":op,"d":[t, value_to_tree(&e)],"a":a})
+                if g.r.gen() { json!({"op":op,"d":[t, value_to_tree(&e)],"a":a}) } else { json!({"op":op,"d":[value_to_tree(&e), t],"a":a}) }
             }
             "num" => match n % 3 {
                 0 => json!({"op":"num","a":{"n": num_to_j(&g.number())}}),
